@@ -160,6 +160,16 @@ impl StateMachine<'_> {
         first_path: bool,
         new_section: bool,
     ) -> std::io::Result<()> {
+        // In color-only mode the line itself is painted instead of the extracted code. For
+        // `ripgrep --json` input the line is a JSON object: use the code it contains (and
+        // nothing for the path header), the style sections refer to that text.
+        let is_json = grep_line.submatches.is_some();
+        let code_line = if is_json {
+            grep_line.code.to_string()
+        } else {
+            self.line.clone()
+        };
+        let header_line = if is_json { "" } else { &self.line };
         if new_path {
             // Emit new path header line
             if !first_path {
@@ -170,7 +180,7 @@ impl StateMachine<'_> {
                 &[(0, 0)],
                 None,
                 &mut self.painter,
-                &self.line,
+                header_line,
                 &grep_line.path,
                 self.config.ripgrep_header_style.decoration_style,
                 &self.config.grep_file_style,
@@ -229,7 +239,7 @@ impl StateMachine<'_> {
             &[(grep_line.line_number.unwrap_or(0), 0)],
             Some(code_style_sections),
             &mut self.painter,
-            &self.line,
+            &code_line,
             &grep_line.path,
             crate::style::DecorationStyle::NoDecoration,
             &self.config.grep_file_style,
